@@ -689,6 +689,20 @@ def call_atom(fl, name, args, kw):
     return fl.tab.atom('call', tuple(args + [kd[k] for k in ks]), extra=('fn:' + name,) + tuple(ks))
 
 
+def implied_by_loop(fl, e, g):
+    """guard g of event e only says what the enclosing `for i in range(N)` already says (the body runs when 0 < N):
+    `if N == 0: return` before the loop, `if N > 0:` around it"""
+    if g.rf is None:
+        return False
+    for lp in e.loops:
+        if getattr(lp, 'kind', None) == 'range' and lp.range_args and lp.range_args[0].const() == 0:
+            n_ = lp.range_args[1]
+            if guard_is(fl, g, spec(fl, 'n == 0', {'n': n_}), False) or guard_is(fl, g, spec(fl, '0 < n', {'n': n_}), True) or \
+                    guard_is(fl, g, spec(fl, 'n < 1', {'n': n_}), False):
+                return True
+    return False
+
+
 def unmut(fl, rf):
     """the container behind a `mutated(...)` marker (a list that was appended to in a helper and handed back)"""
     a = atom_of(fl, rf)
